@@ -14,6 +14,7 @@ import hashlib
 import itertools
 import multiprocessing
 import os
+import pathlib
 import pickle
 import shutil
 import sys
@@ -33,16 +34,19 @@ TRUSTED_BASE = [
 ]
 ASSUMPTIONS = [
     "os.chdir, os.rmdir (of an empty directory), shutil.rmtree and os.environ assignment do not themselves fail; logging has no effect",
-    "no sub-directory of a scratch directory carries a kept extension (copy-back iterates plain files)",
     "mkdtemp returns a fresh directory (used only as the explicit premise 'destination not inside the scratch directory')",
     "timeout (fork + kill) and worker-process Config inheritance are observed on the implementation only, not modelled",
+    "the wrapped function does not delete its own work_in / scratch directory (outcome-only infidelity: the finally block would raise)",
+    "file names passed to work_in_tmp_dir are bare str names in the calling directory (other kinds: oracle-only variants)",
 ]
 RULE = ("systematic: every wrapper variant (work_in on absent/empty/non-empty dir, work_in_tmp_dir with/without inputs incl. "
         "_mol.in and a missing input, ll_tmp_dir unset/existing/missing, run_in_tmp_environment on present/absent variables "
         "incl. a change between decoration and call, temporary_config, check_sufficient_memory) x every scripted wrapped "
         "function (returns / raises each of 6 exception types / chdir / files / variables / Config edits) x the fault-free run "
         "and one run per fallible step failing (thorough: also pairs); seeded random stacks of depth 2-3 incl. recursion; the "
-        "six execute closures with a fake executable; a case is non-trivial when a fault is injected, the wrapped function "
+        "six execute closures with a fake executable outside PATH (every keyword type, plain and rich calculation, memory check "
+        "failing); oracle-only: full Calculation.run per program, ORCA._get_version_no_output, conf_gen, timeout (returns / times "
+        "out / wrapped function raises / nested with work_in_tmp_dir), two submissions to one ProcessPool; a case is non-trivial when a fault is injected, the wrapped function "
         "raises or changes state, or the stack is nested; distinct by (stack, pre-state, script, fault plan)")
 
 # Functions the HAND-WRITTEN parts (coq/C16/Effects.v semantics, Model.v program semantics, the harness's
@@ -66,6 +70,13 @@ PINS = [
     ("autode/config.py", "_ConfigClass.__setattr__"),
     # the fake calculation of the execute-closure streams deep-copies the keywords as the real input does (input.py:12-40)
     ("autode/calculations/input.py", "CalculationInput.__init__"),
+    # read (as a property) by XTB.execute before the closure; the translator only sees the attribute access
+    ("autode/wrappers/XTB.py", "XTB._electronic_temp_str"),
+    # a second work_in_tmp_dir + run_external user in an anchored file, exercised by the library-calls stream
+    ("autode/wrappers/ORCA.py", "ORCA._get_version_no_output"),
+    # the only other in-tree writer of os.environ (finding conf_gen.get_simanl_atoms|env-OMP_NUM_THREADS-not-restored)
+    ("autode/conformers/conf_gen.py", "_get_coords_energy"),
+    ("autode/conformers/conf_gen.py", "_get_v"),
 ]
 
 SLICE = ["C16/Effects.v", "C16/Model.v", "C16/Lemmas.v", "C16/Props.v", "C16/Corr.v", "gen/C16_Gen.v"]
@@ -256,14 +267,16 @@ class Sandbox:
             return None
 
     def layout(self, pre):
-        dirs = {("w",), ("tmp",), ("ll",), ("away",), ("bin",)}
+        dirs = {("w",), ("tmp",), ("ll",), ("away",), ("bin",), ("opt",)}
         files = {("w", f): "input\n" for f in pre.get("inputs", self.INPUTS)}
         wd = pre.get("workdir")
         if wd in ("empty", "full"):
             dirs.add(("w", "d1"))
         if wd == "full":
             files[("w", "d1", "keep.txt")] = "keep\n"
-        files[("bin", "fake_exe")] = FAKE_EXE
+        if wd == "file":
+            files[("w", "d1")] = "a regular file where work_in wants its directory\n"
+        files[("opt", "fake_exe")] = FAKE_EXE        # like Config.<PROG>.path given explicitly: its directory is NOT on PATH
         files[("bin", "mpirun")] = "#!/bin/sh\nshift 2\nexec \"$@\"\n"
         return dirs, files
 
@@ -290,7 +303,7 @@ class Sandbox:
             if f not in have_f:
                 with open(self.p(*f), "w") as fh:
                     fh.write(content)
-                if f[0] == "bin":
+                if f[0] in ("bin", "opt"):
                     os.chmod(self.p(*f), 0o755)
         tempfile.tempdir = self.p("tmp")
         os.environ.clear()
@@ -316,6 +329,8 @@ class Sandbox:
         return ("leaf", digest(v))
 
     def cfg_tree_of(self, key, v):
+        if key not in self.base_fast:
+            return self.slow_tree_of(key, v)
         f = self.base_fast.get(key)
         if f is not None and self.fast(v) == f:
             return self.base_tree[key]
@@ -386,6 +401,13 @@ class Script:
                 elif a[1] == "inplace":
                     Config.ORCA.copied_output_exts.append(".zz")
                     key = "ORCA"
+                elif a[1] == "keywords":       # the docstring's own use case: an edit deep inside a KeywordsSet
+                    from autode.wrappers.keywords.functionals import pbe
+                    Config.ORCA.keywords.sp.functional = pbe
+                    key = "ORCA"
+                elif a[1] == "addkey":         # a key that did not exist (only possible through __dict__)
+                    Config.__dict__["c16_added"] = 1
+                    key = "c16_added"
                 else:
                     raise AssertionError(a)
                 self.cfgrec[i] = (key, self.sb.cfg_tree_of(key, Config.__dict__[key]))
@@ -407,7 +429,7 @@ class Script:
             elif a[0] == "delenv":
                 out.append(f"ADelenv {coq_string(a[1])}")
             elif a[0] == "setcfg":
-                key, tree = self.cfgrec.get(i, ({"n_cores": "n_cores", "nested": "XTB", "inplace": "ORCA"}[a[1]], ("leaf", "")))
+                key, tree = self.cfgrec.get(i, ({"n_cores": "n_cores", "nested": "XTB", "inplace": "ORCA", "keywords": "ORCA", "addkey": "c16_added"}[a[1]], ("leaf", "")))
                 out.append(f"ASetcfg {coq_string(key)} {ctree(tree)}")
             elif a[0] == "raise":
                 out.append(f"ARaise {a[1]}")
@@ -420,7 +442,8 @@ def decorate(spec, f):
     if k == "work_in":
         return U.work_in(spec[1])(f)
     if k == "tmp":
-        return U.work_in_tmp_dir(filenames_to_copy=list(spec[1]), kept_file_exts=list(spec[2]), use_ll_tmp=spec[3])(f)
+        fns = [None if x == "<None>" else pathlib.Path(x[6:]) if isinstance(x, str) and x.startswith("<Path>") else x for x in spec[1]]
+        return U.work_in_tmp_dir(filenames_to_copy=fns, kept_file_exts=list(spec[2]), use_ll_tmp=spec[3])(f)
     if k == "env":
         return U.run_in_tmp_environment(**dict(spec[1]))(f)
     if k == "cfg":
@@ -500,6 +523,8 @@ def classify(e, exe=None):
         return "(Raise ENoSource)", txt
     if isinstance(e, FileExistsError):
         return "(Raise EExists)", txt
+    if isinstance(e, IsADirectoryError):
+        return "(Raise EIsDir)", txt
     if isinstance(e, AssertionError):
         return "(Raise EAssert)", txt
     if isinstance(e, KeyError):
@@ -642,6 +667,10 @@ def property_failures(sb, case, res):
             for n in made_kept:
                 if here + (n,) not in a["files"]:
                     out.append(("work_in_tmp_dir|kept-files-not-copied", f"{n} was left in the scratch dir but is not in {'/'.join(here)}"))
+        elif res["out"] == "(Raise EIsDir)" and no_fault:
+            out.append(("work_in_tmp_dir|raises-on-kept-ext-directory-in-scratch",
+                        f"the wrapped function succeeded and left a DIRECTORY with a kept extension in the scratch dir: the call raised {res['txt']}"
+                        + (f"; kept files {[n for n in made_kept if here + (n,) not in a['files']]} lost" if any(here + (n,) not in a["files"] for n in made_kept) else "")))
         elif no_fault and made_kept and first_chdir < len(acts):
             out.append(("work_in_tmp_dir|kept-files-lost-when-callee-changes-cwd",
                         f"the wrapped function succeeded (left {made_kept} in the scratch dir, then chdir) but the call raised "
@@ -655,19 +684,46 @@ def property_failures(sb, case, res):
     return out
 
 
+def outside_model(case):
+    """inputs the model cannot represent (non-str file names) are judged by the property oracles only"""
+    if case["pre"].get("oracle_only"):
+        return True
+    return False
+
+
+OWN_ACTS = {"env": {"setenv", "delenv"}, "cfg": {"setcfg"}, "mem": set(),
+            "work_in": {"mkfile", "mkdir", "chdir"}, "tmp": {"mkfile", "mkdir", "chdir"}}
+
+
+def relevant(stack, acts, quick):
+    """quick tier: a single wrapper is run against the scripts that touch what it manages (plus raising and
+    three fixed cross-kind scripts); the thorough tier runs the full product"""
+    if not quick:
+        return True
+    own = set().union(*(OWN_ACTS[s[0]] for s in flat(stack)))
+    tags = {a[0] for a in acts} - {"raise"}
+    cross = ([("setenv", "C16_A", "callee"), ("setenv", "C16_Z", "z")], [("setcfg", "nested")],
+             [("mkfile", "res.out"), ("mkfile", "junk.tmp")], [("chdir", ["away"]), ("raise", 0)])
+    return tags <= own or acts in [list(c) for c in cross]
+
+
 # ------------------------------------------------------------------------------------ generators
 def scripts(full):
     away = ("chdir", ["away"])
     S = [[], [("mkfile", "res.out"), ("mkfile", "junk.tmp")], [away], [("mkfile", "res.out"), away],
          [("setenv", "C16_A", "callee"), ("setenv", "C16_Z", "z")], [("delenv", "C16_A")],
          [("setcfg", "n_cores")], [("setcfg", "nested")], [("setcfg", "inplace")],
-         [("mkdir", "sub"), ("mkfile", "x.xyz")]]
+         [("mkdir", "sub"), ("mkfile", "x.xyz")],
+         [("mkfile", "mol_opt.xyz"), ("mkfile", "calc.tar.gz"), ("mkfile", "calc.out"), ("mkfile", "gradient"), ("mkfile", "plain.xyz")],
+         [("mkfile", "a.out"), ("mkdir", "m.out")],
+         [("setcfg", "keywords")], [("setcfg", "addkey")]]
     R = []
     for i in range(len(EXC_NAMES)):
         R.append([("raise", i)])
     R += [[away, ("raise", 0)], [("mkfile", "res.out"), ("raise", 1)], [("setenv", "C16_A", "callee"), ("raise", 2)],
           [("delenv", "C16_A"), ("raise", 3)], [("setcfg", "nested"), ("setcfg", "n_cores"), ("raise", 5)],
-          [("setcfg", "inplace"), away, ("mkfile", "elsewhere.out"), ("raise", 4)]]
+          [("setcfg", "inplace"), away, ("mkfile", "elsewhere.out"), ("raise", 4)],
+          [("setcfg", "keywords"), ("setcfg", "addkey"), ("raise", 1)]]
     if full:
         R += [[("mkdir", "sub"), away, ("setenv", "C16_B", "b"), ("raise", 0)],
               [("mkfile", "a.xyz"), ("mkfile", "b.out"), ("raise", 2)]]
@@ -678,12 +734,17 @@ def scripts(full):
 def single_variants():
     """(stack, pre, late_env) for every wrapper on its own."""
     V = []
-    for wd in (None, "empty", "full"):
+    for wd in (None, "empty", "full", "file"):
         V.append(([("work_in", "d1")], {"workdir": wd}, {}))
     kept = [".out", ".xyz"]
     V.append(([("tmp", [], kept, False)], {}, {}))
     V.append(([("tmp", ["in.xyz"], kept, False)], {}, {}))
     V.append(([("tmp", ["in.xyz", "job_mol.in"], [], False)], {}, {}))
+    # file names that are not str (pathlib.Path / None): judged by the property oracles only (outside the model)
+    V.append(([("tmp", ["<Path>in.xyz"], kept, False)], {"oracle_only": True}, {}))
+    V.append(([("tmp", ["in.xyz", "<None>"], kept, False)], {"oracle_only": True}, {}))
+    # kept "extensions" that are not a single final .ext component: suffix, multi-dot, no dot, whole file name
+    V.append(([("tmp", [], ["_opt.xyz", ".tar.gz", "out", "gradient"], False)], {}, {}))
     V.append(([("tmp", ["in.xyz", "missing.inp"], kept, False)], {}, {}))
     V.append(([("tmp", ["in.xyz"], kept, True)], {"ll": None}, {}))
     V.append(([("tmp", ["in.xyz"], kept, True)], {"ll": "exists"}, {}))
@@ -749,14 +810,19 @@ def make_method(name):
 def run_program_case(sb, methods, case):
     """case: dict(prog, inp, fns, pre, exe ('ok'|'missing'), plan)"""
     sb.reset(case["pre"])
-    exe = sb.p("bin", "fake_exe") if case["exe"] == "ok" else sb.p("bin", "no_such_exe")
+    exe = sb.p("opt", "fake_exe") if case["exe"] == "ok" else sb.p("opt", "no_such_exe")
     m = methods[case["prog"]]
     m.path = exe
+    rich = case.get("shape") == "rich"     # the branches of execute a plain calculation does not take
+    if case["prog"] == "XTB":
+        m.electronic_temp, m.gfn_version = (300.0, 1) if rich else (None, None)
     calc = types.SimpleNamespace(
-        input=types.SimpleNamespace(filenames=list(case["fns"]), filename=case["inp"], additional_filenames=[],
+        input=types.SimpleNamespace(filenames=list(case["fns"]), filename=case["inp"],
+                                    additional_filenames=(["job.xc"] if rich else []),
                                     keywords=copy.deepcopy(getattr(m.keywords, case.get("kw", "sp")))),   # Calculation copies them too
         output=types.SimpleNamespace(filename=OUTNAME[case["prog"]]), n_cores=3, method=types.SimpleNamespace(path=exe), name="job",
-        molecule=types.SimpleNamespace(charge=0, mult=1, solvent=None))
+        molecule=types.SimpleNamespace(charge=(-1 if rich else 0), mult=(2 if rich else 1),
+                                       solvent=(types.SimpleNamespace(xtb="water") if rich else None)))
     before = sb.snapshot()
     kept_cfg = list(sb.Config.ORCA.copied_output_exts)
     INJ.arm(case["plan"], lowmem=bool(case.get("lowmem")))
@@ -830,7 +896,137 @@ def _read_cfg():
     return (Config.n_cores, Config.XTB.gfn_version, os.getcwd())
 
 
-def observe_runtime(ctx, sb):
+def _children_of(pid):
+    try:
+        with open(f"/proc/{pid}/task/{pid}/children") as fh:
+            return [int(x) for x in fh.read().split()]
+    except OSError:
+        rc, out = sh(["pgrep", "-P", str(pid)], timeout=10)
+        return [int(x) for x in out.split() if x.isdigit()]
+
+
+def _timed_raiser(conn, exc_index):
+    """runs in a forked helper: a function that raises, under autode.utils.timeout"""
+    import autode.utils as U
+    sys.stderr = open(os.devnull, "w")      # the timed child prints its traceback
+
+    def raiser():
+        raise exc_types()[exc_index](f"callee:{exc_index}")
+    try:
+        r = U.timeout(seconds=60, return_value="TO")(raiser)()
+        conn.send(("returned", repr(r)))
+    except BaseException as e:  # noqa
+        conn.send(("raised", type(e).__name__))
+
+
+def timed_call_that_raises(exc_index):
+    """-> ('returned'|'raised'|'hung', detail).  'hung' = the timed child is gone but the call neither returned nor
+    raised (decided from the process tree, not from a wall-clock bound: the property does not bound time)."""
+    a, b = multiprocessing.Pipe()
+    h = multiprocessing.Process(target=_timed_raiser, args=(b, exc_index))
+    h.start()
+    t0, childless_since, seen_child = time.time(), None, False
+    try:
+        while True:
+            if a.poll(0.1):
+                return a.recv()
+            if not h.is_alive():
+                return ("returned", "helper exited") if not a.poll(0.5) else a.recv()
+            kids = _children_of(h.pid)
+            seen_child = seen_child or bool(kids)
+            if kids or (not seen_child and time.time() - t0 < 20):
+                childless_since = None
+            else:
+                childless_since = childless_since or time.time()
+                if time.time() - childless_since > 2.0:
+                    return ("hung", "the child process has exited, the parent is still blocked (q.get() on an empty queue)")
+            if time.time() - t0 > 300:
+                return ("hung", "no result after 300 s")
+    finally:
+        if h.is_alive():
+            h.kill()
+        h.join()
+
+
+def state_failures(label, b, a, what=""):
+    out = []
+    if a["cwd"] != b["cwd"]:
+        out.append((f"{label}|cwd-not-restored", f"cwd {'/'.join(b['cwd'])} -> {'/'.join(a['cwd'])} {what}"))
+    for k in sorted(set(b["env"]) | set(a["env"])):
+        if b["env"].get(k) != a["env"].get(k):
+            out.append((f"{label}|env-{k}-not-restored", f"variable {k}: {b['env'].get(k)!r} before, {a['env'].get(k)!r} after {what}"))
+            break
+    if a["cfg"] != b["cfg"]:
+        out.append((f"{label}|config-not-restored", "Config differs after the call: " + cfg_diff_text(b["cfg"], a["cfg"]) + " " + what))
+    for top in ("tmp", "ll"):
+        if tree_under(a, top) != tree_under(b, top):
+            out.append((f"{label}|scratch-dir-left", f"entries left under {top}/ {what}"))
+            break
+    return out
+
+
+def observe_library_calls(ctx, sb, full):
+    """State-changing library calls outside the six execute closures (implementation side only): a full
+    Calculation.run() per program (input generation, execute, output handling: every sibling method of the wrapper
+    classes), ORCA._get_version_no_output, and the built-in conformer generator."""
+    import autode as ade
+    from autode.calculations import Calculation
+    fails = []
+    exe = sb.p("opt", "fake_exe")
+    for pn, _ in PROGS:
+        for kw in (KWS_QUICK if full else ("sp", "grad")):
+            sb.reset({"env": {"OMP_NUM_THREADS": "4"}})
+            getattr(sb.Config, pn).path = exe
+            sb.Config.n_cores = 1
+            try:
+                method = make_method(pn)
+                mol = ade.Molecule(name="h2", atoms=[ade.Atom("H"), ade.Atom("H", x=0.75)])
+                calc = Calculation(name=f"h2_{kw}", molecule=mol, method=method, keywords=getattr(method.keywords, kw), n_cores=1)
+            except Exception as e:  # noqa: calculation type not implemented by the method
+                ctx.hist("library-calls", f"{pn}|{kw}|not-constructed:{type(e).__name__}")
+                continue
+            before = sb.snapshot()
+            try:
+                calc.run()
+                txt = "returned"
+            except Exception as e:  # noqa: nothing to parse in the fake output
+                txt = f"{type(e).__name__}"
+            after = sb.snapshot()
+            ctx.count("library-calls", ("Calculation.run", pn, kw), True, sample={"call": f"Calculation(method={pn}, keywords={kw}).run()", "outcome": txt})
+            ctx.hist("library-calls", f"{pn}|{kw}|{txt}")
+            fails += state_failures(f"{pn}.Calculation.run", before, after, f"(keywords {kw}; {txt})")
+    # ORCA._get_version_no_output: @work_in_tmp_dir(filenames_to_copy=[], kept_file_exts=[]) around run_external
+    sb.reset({})
+    m = make_method("ORCA")
+    for path in (exe, sb.p("opt", "no_such_exe")):
+        m.path = path
+        before = sb.snapshot()
+        try:
+            r = m._get_version_no_output()
+            txt = f"returned {r!r}"
+        except Exception as e:  # noqa
+            txt = type(e).__name__
+        after = sb.snapshot()
+        ctx.count("library-calls", ("ORCA._get_version_no_output", os.path.basename(path)), True, sample={"call": "ORCA._get_version_no_output()", "outcome": txt})
+        fails += state_failures("ORCA._get_version_no_output", before, after, f"({txt})")
+    # the built-in (non-RDKit) structure builder
+    from autode.conformers.conf_gen import get_simanl_atoms
+    for val in ("4", None):
+        sb.reset({"env": ({"OMP_NUM_THREADS": val} if val is not None else {})})
+        mol = ade.Molecule(smiles="CO")
+        before = sb.snapshot()
+        try:
+            get_simanl_atoms(mol, save_xyz=False)
+            txt = "returned"
+        except Exception as e:  # noqa
+            txt = type(e).__name__
+        after = sb.snapshot()
+        ctx.count("library-calls", ("get_simanl_atoms", val), True, sample={"call": "conf_gen.get_simanl_atoms(Molecule(smiles='CO'))", "outcome": txt})
+        fails += state_failures("conf_gen.get_simanl_atoms", before, after, f"({txt})")
+    return fails
+
+
+def observe_runtime(ctx, sb, full=False):
     """timeout (fork + kill) and ProcessPool config inheritance: implementation-side observation only."""
     import autode.utils as U
     fails = []
@@ -849,7 +1045,7 @@ def observe_runtime(ctx, sb):
         time.sleep(30)
         return "late"
     t0 = time.time()
-    r1 = U.timeout(seconds=5, return_value="TO")(child_changes)()
+    r1 = U.timeout(seconds=300, return_value="TO")(child_changes)()     # the property does not bound time
     r2 = U.timeout(seconds=0.4, return_value="TO")(child_sleeps)()
     dt = time.time() - t0
     after = sb.snapshot()
@@ -864,25 +1060,62 @@ def observe_runtime(ctx, sb):
             ch.kill()
             ch.join()
     ctx.count("runtime-observation", "timeout-state", True)
-    # worker processes see the parent's configuration at submission time
+    # a wrapped function that RAISES under timeout: the call must return or raise
+    for ei in ((0, 5) if full else (0,)):
+        how, detail = timed_call_that_raises(ei)
+        ctx.count("runtime-observation", ("timeout-raise", ei), True, sample={"wrapped_raises": EXC_NAMES[ei], "call": how, "detail": detail})
+        if how == "hung":
+            fails.append(("timeout|hangs-when-wrapped-function-raises",
+                          f"@timeout(seconds=60) around a function raising {EXC_NAMES[ei]}: the call neither returns nor raises - {detail}"))
+    # timeout nested with the scratch-directory wrapper (depth 2), both orders; the inner function outlives the limit
+    sb.reset({})
+    for order in ("timeout(work_in_tmp_dir(f))", "work_in_tmp_dir(timeout(f))"):
+        before = sb.snapshot()
+
+        def sleeper():
+            with open("partial.out", "w") as fh:
+                fh.write("x")
+            time.sleep(30)
+        if order.startswith("timeout"):
+            f = U.timeout(seconds=0.4, return_value="TO")(U.work_in_tmp_dir(kept_file_exts=[".out"])(sleeper))
+        else:
+            f = U.work_in_tmp_dir(kept_file_exts=[".out"])(U.timeout(seconds=0.4, return_value="TO")(sleeper))
+        try:
+            r = f()
+        except Exception as e:  # noqa
+            r = type(e).__name__
+        after = sb.snapshot()
+        ctx.count("runtime-observation", ("timeout-nested", order), True, sample={"stack": order, "result": repr(r)})
+        if tree_under(after, "tmp") != tree_under(before, "tmp"):
+            left = [p for p in tree_under(after, "tmp") if p not in tree_under(before, "tmp")]
+            fails.append(("timeout|scratch-dir-left-when-child-killed",
+                          f"{order} with f exceeding the limit returned {r!r}; left behind {['/'.join(p) for p in left][:3]} (the child is SIGKILLed, its finally never runs)"))
+        if after["cwd"] != before["cwd"] or after["env"] != before["env"]:
+            fails.append(("timeout|parent-state-changed", f"{order}: cwd/environment of the parent changed"))
+        sb.reset({})
+    # worker processes see the parent's configuration at submission time - every submission, not only the first
     sb.Config.n_cores = 7
     sb.Config.XTB.gfn_version = 1
     with U.ProcessPool(max_workers=2) as pool:
-        got = pool.submit(_read_cfg).result(timeout=120)
+        got = pool.submit(_read_cfg).result(timeout=300)
         sb.Config.n_cores = 5
-        got2 = pool.submit(_read_cfg).result(timeout=120)
+        got2 = pool.submit(_read_cfg).result(timeout=300)
     ctx.count("runtime-observation", "pool-config", True, sample={"first_submission": list(got), "after_change_same_pool": list(got2)})
     if got[0] != 7 or got[1] != 1:
         fails.append(("ProcessPool|worker-config-differs", f"worker saw n_cores={got[0]}, XTB.gfn_version={got[1]}; parent had 7, 1 at submission"))
-    ctx.cov["streams"]["runtime-observation"]["pool_second_submission_after_change"] = {"parent": 5, "worker_saw": got2[0]}
+    if got2[0] != 5:
+        fails.append(("ProcessPool|later-submission-sees-stale-config",
+                      f"one pool: submit; Config.n_cores = 5; submit -> the second job saw n_cores={got2[0]} (the workers were forked at the first submission)"))
     return fails
 
 
 # ------------------------------------------------------------------------------------ run
 def report(ctx, fails, replay, seen):
+    """-> number of failures that are NOT listed as known (known findings must not mask a broken proof / pin)"""
     n = 0
+    known = set(ctx.known_keys())
     for key, what in fails:
-        n += 1
+        n += key not in known
         if key in seen:
             seen[key] += 1
             continue
@@ -936,6 +1169,8 @@ def run(ctx):
         # 3a. every wrapper alone x every script x every failure point
         for stack, pre, late in single_variants():
             for acts in S:
+                if not relevant(stack, acts, ctx.quick):
+                    continue
                 case0 = {"stack": stack, "pre": pre, "acts": acts, "plan": [], "late_env": late}
                 res0 = run_case(sb, case0)
                 todo = [(case0, res0)]
@@ -946,8 +1181,11 @@ def run(ctx):
                     nontrivial = bool(any(c["plan"])) or bool(c["acts"]) or bool(late)
                     ctx.count("single-wrapper", (repr(c["stack"]), repr(c["pre"]), repr(c["acts"]), repr(c["plan"]), repr(late)),
                               nontrivial, sample={"stack": repr(c["stack"]), "acts": repr(c["acts"]), "plan": c["plan"], "outcome": r["txt"]})
-                    ctx.hist("single-wrapper", f"{c['stack'][0][0]}|{'fault' if any(c['plan']) else 'nofault'}|{r['out'].split()[0].strip('(')}")
+                    ctx.hist("single-wrapper", f"{c['stack'][0][0]}|{'fault' if any(c['plan']) else 'nofault'}|{(r['out'] or 'other').split()[0].strip('(')}")
                     nfail += report(ctx, property_failures(sb, c, r), {"kind": "case", "case": jsonable_case(c), "observed": r["txt"]}, seen)
+                    if outside_model(c):      # disclosed model assumptions: oracles only
+                        ctx.hist("outside-model", "oracle-only")
+                        continue
                     if r["out"] is None:
                         nfail += report(ctx, [("harness|unclassified-exception", f"unexpected exception {r['txt']}")],
                                         {"kind": "case", "case": jsonable_case(c)}, seen)
@@ -983,6 +1221,9 @@ def run(ctx):
                               sample={"stack": repr(c["stack"]), "acts": repr(c["acts"]), "plan": c["plan"], "outcome": r["txt"]})
                     ctx.hist("nested", f"depth{len(flat(c['stack']))}|{'rec' if c['stack'][0][0] == 'rec' else 'mix'}|{'fault' if any(c['plan']) else 'nofault'}")
                     nfail += report(ctx, property_failures(sb, c, r), {"kind": "case", "case": jsonable_case(c), "observed": r["txt"]}, seen)
+                    if outside_model(c):      # disclosed model assumptions: oracles only
+                        ctx.hist("outside-model", "oracle-only")
+                        continue
                     if r["out"] is None:
                         nfail += report(ctx, [("harness|unclassified-exception", f"unexpected exception {r['txt']}")],
                                         {"kind": "case", "case": jsonable_case(c)}, seen)
@@ -1011,7 +1252,8 @@ def run(ctx):
                     if pn == "NWChem" and exe == "missing":
                         continue
                     c0 = {"prog": pn, "inp": inp, "fns": [inp], "exe": exe, "plan": [], "kw": kw,
-                          "pre": {"inputs": inputs, "env": {} if ki % 2 else EMPTY_ENV}}
+                          "shape": ("rich" if (ki + (exe == "ok")) % 2 else "plain"),
+                          "pre": {"inputs": inputs + ["job.xc"], "env": {} if ki % 2 else EMPTY_ENV}}
                     r0 = run_program_case(sb, methods, c0)
                     todo = [(c0, r0)]
                     mem_at = [i for i, (kind, _, _) in enumerate(r0["log"]) if kind == "mem"]
@@ -1061,11 +1303,13 @@ def run(ctx):
                         continue
                     terms.append(program_term(sb, c, r, base_tree))
                     descr.append({"stream": "execute-closures", "case": c, "observed": r["txt"]})
+        # 3c'. other state-changing library calls (implementation side only)
+        nfail += report(ctx, observe_library_calls(ctx, sb, full), {"kind": "library-calls"}, seen)
     finally:
         remove_patches()
     # 3d. timeout / worker processes (unpatched implementation)
     try:
-        nfail += report(ctx, observe_runtime(ctx, sb), {"kind": "runtime-observation"}, seen)
+        nfail += report(ctx, observe_runtime(ctx, sb, full), {"kind": "runtime-observation"}, seen)
     finally:
         sb.cleanup()
     ctx.cov["finding_counts"] = dict(seen)
@@ -1122,7 +1366,10 @@ def replay(ctx, obj):
             fails = program_failures(sb, c, r)
         else:
             remove_patches()
-            fails = observe_runtime(ctx, sb) if rp.get("kind") == "runtime-observation" else []
+            fails = observe_runtime(ctx, sb, True) if rp.get("kind") == "runtime-observation" else []
+            if rp.get("kind") == "library-calls":
+                install_patches()
+                fails = observe_library_calls(ctx, sb, True)
             r = {"txt": ""}
     finally:
         remove_patches()
@@ -1143,28 +1390,37 @@ def _retuple(s):
 
 
 MANIFEST = {
-    "technique": "Coq proof over effect-language terms regenerated from source (fail-closed ast translator) + fault-injection correspondence on the real wrappers",
-    "level_text": ("Machine-checked theorems (coq/C16/Props.v, closed under the global context) over the terms TRANSLATED on every run "
-                   "from work_in, work_in_tmp_dir, run_in_tmp_environment, temporary_config and check_sufficient_memory, for EVERY "
-                   "wrapped function (arbitrary state transformer that may raise, chdir, create/delete files, set variables, edit "
-                   "Config), EVERY subset of the wrappers' own fallible steps failing (mkdir, mkdtemp, each copy-in / copy-back, "
-                   "memory check) and EVERY initial state: cwd restored (work_in, work_in_tmp_dir); the scratch directory and "
-                   "everything below it gone on every path incl. a failing copy-in; work_in removes only its own directory and "
-                   "only when empty; kept files present in the calling directory whenever the call returns, and the call returns whenever "
-                   "the wrapped function does (wherever it returns from) unless it failed before reaching it; environment variables "
-                   "restored to their call-time values (absent ones absent) on return and on raise; temporary_config restores every "
-                   "pre-existing key; the wrapped function is not executed when the memory check fails; nesting of any depth/mixture "
-                   "(incl. recursion) restores by induction on the stack; the six execute closures (stacks recorded from source) "
-                   "restore cwd/env, remove scratch and reach the external program only behind the memory check."),
-    "level_note": ("Stated, not a violation: keys added to Config.__dict__ inside temporary_config are not removed (its __setattr__ "
-                   "refuses new keys). kept_files_copied_wherever_callee_returns covers wrapped functions that return from another "
-                   "directory (repaired by f2e505d; the oracle and the theorem catch its return). Trusted: Coq kernel + "
-                   "vm_compute; tr/translate_c16.py and the semantics of coq/C16/Effects.v (both validated on every run by "
-                   "evaluating the translated terms against the real wrappers on ~1.6k (quick) / ~7k (thorough) fault-injected cases incl. nesting <= 3); "
-                   "os.chdir/rmdir/rmtree/environ assignment assumed infallible; deep-copy aliasing of Config is not "
-                   "representable in the model (checked on the implementation by in-place mutation cases). `timeout` (fork + "
-                   "kill) and worker-process Config inheritance are observed on the implementation only (parent state unchanged, "
-                   "child reaped, worker sees the Config at first submission; with the fork start method a Config change AFTER "
-                   "the first submission of a pool is not seen by later submissions of that pool - recorded in evidence, no "
-                   "library call does this)."),
+    "technique": "Coq proof over effect-language terms regenerated from source (fail-closed ast translator incl. static scans for state writes) + fault-injection correspondence on the real wrappers + implementation-side oracles for timeout / worker processes / other library calls",
+    "level_text": ("PROVED (coq/C16/Props.v, 16 theorems closed under the global context) over the terms TRANSLATED on every run from "
+                   "work_in, work_in_tmp_dir, run_in_tmp_environment, temporary_config and check_sufficient_memory, for EVERY wrapped "
+                   "function (arbitrary state transformer that may raise, chdir, create/delete files, set variables, edit Config), "
+                   "EVERY subset of the wrappers' own fallible steps failing (mkdir, mkdtemp, each copy-in / copy-back, memory check) "
+                   "and EVERY initial state: cwd restored; the scratch directory and everything below it gone on every path incl. a "
+                   "failing copy-in; work_in removes only its own directory and only when empty; kept files in the calling directory "
+                   "whenever the call returns, and the call returns whenever the wrapped function does (wherever it returns from) "
+                   "unless it failed before reaching it or a later fault is injected; environment variables restored to their call-time "
+                   "values (absent stays absent, empty stays empty) on return and on raise; temporary_config restores every key present "
+                   "on entry; the wrapped function is not executed when the memory check fails; nesting of any depth/mixture (incl. "
+                   "recursion): restoring innermost function => restoring stack, and for an ARBITRARY innermost function one restoring "
+                   "layer suffices for its piece of state, incl. scratch removal and kept files under env/config layers; the six execute "
+                   "closures (stacks recorded from source, decorator order free) restore cwd/env, remove scratch, copy their kept "
+                   "extensions when they return, and reach the external program only behind the memory check. "
+                   "NOT PROVED, exercised only: `timeout`, worker-process Config, Config deep-copy aliasing, the numeric memory "
+                   "comparison, library calls outside the wrappers."),
+    "level_note": ("PARTIAL. `timeout` (fork/join/kill) has no model and no theorem: it is observed on the implementation (returns, times "
+                   "out, wrapped function raises, nested with work_in_tmp_dir in both orders; parent state; child reaped). Worker-process "
+                   "Config: first and second submission of one pool are observed; the 10 `with ProcessPool` blocks of the package are "
+                   "scanned for Config assignments. KNOWN FINDINGS on the unchanged tree (listed in known_findings.json): "
+                   "timeout|scratch-dir-left-when-child-killed, ProcessPool|later-submission-sees-stale-config. Found by these "
+                   "oracles and repaired in /repo (fc8ade6, e65e4e8, 56fa5fa; guarded): timeout|hangs-when-wrapped-function-raises, "
+                   "conf_gen.get_simanl_atoms|env-OMP_NUM_THREADS-not-restored, work_in_tmp_dir|raises-on-kept-ext-directory-in-scratch "
+                   "(the isfile guard is now part of the translated term: CopyBack files_only). Stated, not a violation: keys added through Config.__dict__ "
+                   "inside temporary_config are not removed (__setattr__ refuses new keys). The memory check is an oracle step of the "
+                   "model (tape); the real comparison is exercised by the low-memory streams. Outcome-only model infidelities (state "
+                   "agrees): a wrapped function deleting its own work_in/scratch directory, file names with directory parts or non-str "
+                   "(oracle-only variants). Trusted: Coq kernel + vm_compute; "
+                   "tr/translate_c16.py and the semantics of coq/C16/Effects.v, both validated on every run by evaluating the translated "
+                   "terms against the real wrappers on ~1.5k (quick) / ~8k (thorough) fault-injected cases incl. nesting <= 3; "
+                   "os.chdir/rmdir/rmtree/environ assignment assumed infallible. Other state-changing library calls (full "
+                   "Calculation.run per program, ORCA._get_version_no_output, conf_gen) are covered by before/after oracles only."),
 }
